@@ -218,7 +218,12 @@ fn main() {
             std::io::Read::read_to_string(&mut std::io::stdin(), &mut src).unwrap();
             drop(out);
             // run on a thread with a normal-sized stack: a stack overflow must be observable
-            total::run_one(&src);
+            if args.iter().any(|a| a == "--thread") {
+                let h = std::thread::Builder::new().stack_size(2 * 1024 * 1024).spawn(move || total::run_one(&src)).unwrap();
+                let _ = h.join();
+            } else {
+                total::run_one(&src);
+            }
             std::process::exit(0);
         }
         // expand --cases F : program with constructs vs unrolled twin (C06)
